@@ -304,7 +304,8 @@ func checkC04(c *Ctx) {
 							scalarArg := strings.HasPrefix(arg, "x.") || strings.HasPrefix(arg, `"`) || strings.Contains(arg, "Format(") || strings.Contains(arg, "EncodeToString(") ||
 								strings.Contains(arg, "Unix") || arg == "raw" || arg == "out" || arg == "strs" || strings.HasPrefix(arg, "strconv.")
 							if (kind == "success-arm-only" || kind == "discarded" || kind == "untested") && !scalarArg {
-								k := unitKey + " " + emitter(call.Pos()) + ": error of json.Marshal(" + holeFree(arg) + ") is dropped"
+								k := unitKey + ": error of json.Marshal(" + holeFree(arg) + ") is dropped"
+								_ = emitter
 								if _, ok := swallow[k]; !ok {
 									swallow[k] = siteAgg{gen(call.Pos()), kind}
 								}
@@ -493,10 +494,10 @@ func checkJSONOnMessages(c *Ctx, rule string) {
 					isSibling := strings.HasPrefix(a, "x.") || strings.HasPrefix(a, "&x.")
 					switch {
 					case isMsg:
-						k := pkgShort(ri.Pkg) + " " + em + ": " + fn + " on a generated message (" + holeFree(a) + ")"
+						k := pkgShort(ri.Pkg) + " *" + ri.Suffix + ": " + fn + " on a generated message (" + holeFree(a) + ")"
 						sites[k] = c.P.Pos(u.Lines[line-1].Pos)
 					case isSibling && strings.Contains(ri.Suffix, "unwrap") && (em == "generateScalarFieldMarshal" || em == "generateScalarFieldUnmarshal" || em == "generateRegularMapMarshal" || em == "generateRegularMapUnmarshal" || em == "generateRepeatedFieldMarshal" || em == "generateRepeatedFieldUnmarshal"):
-						k := pkgShort(ri.Pkg) + " " + em + ": " + fn + " on a sibling field of an unwrap container (" + holeFree(a) + ")"
+						k := pkgShort(ri.Pkg) + " *" + ri.Suffix + ": " + fn + " on a sibling field of an unwrap container (" + holeFree(a) + ")"
 						sites[k] = c.P.Pos(u.Lines[line-1].Pos)
 					}
 					return true
